@@ -4,7 +4,7 @@
     does not occur in the output. *)
 From Coq Require Import List NArith String Bool Lia.
 From V Require Import Base.Strings Base.Result Model.Registry Model.Settings Model.Subst
-  Model.TypePath Model.Derives Model.Generate Model.Emit Model.Switches.
+  Model.TypePath Model.Derives Model.Generate Model.Emit Model.Switches Proofs.TpMap.
 Import ListNotations.
 Open Scope string_scope. Open Scope list_scope.
 
@@ -15,20 +15,20 @@ Proof.
   intros Hok Hin. apply Hok. left. unfold lits_of. apply in_or_app. left. exact Hin.
 Qed.
 
-Lemma phi_ok_param phi d c n : phi_ok phi d c -> phi (String.append "_" (N_to_string n)) = String.append "_" (N_to_string n).
+Lemma em_phi_param phi d c n : phi_ok phi d c -> phi (String.append "_" (N_to_string n)) = String.append "_" (N_to_string n).
 Proof. intros Hok. apply Hok. right. left. exists n. reflexivity. Qed.
 
-Lemma phi_ok_tpi phi d c p : phi_ok phi d c -> phi (tpi_name p) = tpi_name p.
-Proof. intros Hok. unfold tpi_name. eapply phi_ok_param; eauto. Qed.
+Lemma em_phi_tpi phi d c p : phi_ok phi d c -> phi (tpi_name p) = tpi_name p.
+Proof. intros Hok. unfold tpi_name. eapply em_phi_param; eauto. Qed.
 
-Lemma phi_ok_num phi d c n : phi_ok phi d c -> phi (N_to_string n) = N_to_string n.
+Lemma em_phi_num phi d c n : phi_ok phi d c -> phi (N_to_string n) = N_to_string n.
 Proof. intros Hok. apply Hok. right. right. left. exists n. reflexivity. Qed.
 
-Lemma phi_ok_usize phi d c n :
+Lemma em_phi_usize phi d c n :
   phi_ok phi d c -> phi (String.append (N_to_string n) "usize") = String.append (N_to_string n) "usize".
 Proof. intros Hok. apply Hok. right. right. right. left. exists n. reflexivity. Qed.
 
-Lemma phi_ok_lit_string phi d c x : phi_ok phi d c -> phi (lit_string x) = lit_string x.
+Lemma em_phi_lit_string phi d c x : phi_ok phi d c -> phi (lit_string x) = lit_string x.
 Proof. intros Hok. apply Hok. right. right. right. right. exists x. reflexivity. Qed.
 
 Lemma phi_ok_doc phi c : phi_ok phi true c -> phi "doc" = "doc".
@@ -85,12 +85,41 @@ Proof.
   rewrite forallb_forall in H. eapply em_lit1; eauto.
 Qed.
 
+(** the same test, arranged so that it computes with [d] / [c] unknown *)
+Definition em_litb (d c : bool) (w : string) : bool :=
+  existsb (String.eqb w) base_lits ||
+  (existsb (String.eqb w) doc_lits && d) ||
+  (existsb (String.eqb w) codec_lits && c).
+
+Lemma em_existsb_In w l : existsb (String.eqb w) l = true -> In w l.
+Proof.
+  intros H. apply existsb_exists in H as (x & Hin & E). apply String.eqb_eq in E. subst x. exact Hin.
+Qed.
+
+Lemma em_litb_ok phi d c w : phi_ok phi d c -> em_litb d c w = true -> phi w = w.
+Proof.
+  intros Hok H. apply Hok. left. unfold lits_of. unfold em_litb in H.
+  apply orb_true_iff in H as [H|H]; [apply orb_true_iff in H as [H|H]|].
+  - apply in_or_app. left. apply em_existsb_In. exact H.
+  - apply andb_true_iff in H as [H Hd]. subst d.
+    apply in_or_app. right. apply in_or_app. left. apply em_existsb_In. exact H.
+  - apply andb_true_iff in H as [H Hc]. subst c.
+    apply in_or_app. right. apply in_or_app. right. apply em_existsb_In. exact H.
+Qed.
+
+Lemma em_lits_fixed phi d c l :
+  phi_ok phi d c -> forallb (em_litb d c) l = true -> map phi l = l.
+Proof.
+  intros Hok H. apply map_phi_fixed. intros w Hw.
+  rewrite forallb_forall in H. eapply em_litb_ok; eauto.
+Qed.
+
 (** rewrite every [phi "literal"] of the goal to ["literal"] *)
 Ltac fix_lits phi Hok :=
   repeat match goal with
   | |- context [phi ?w] =>
       let H := fresh "Hfix" in
-      assert (H : phi w = w) by (apply (em_lit1 phi _ _ w Hok); vm_compute; reflexivity);
+      assert (H : phi w = w) by (apply (em_litb_ok phi _ _ w Hok); vm_compute; reflexivity);
       rewrite !H; clear H
   end.
 
@@ -191,7 +220,7 @@ Proof.
   intros Hok Hd. destruct d.
   - clear Hd. unfold doc_tokens. induction docs as [|x docs IH]; [reflexivity|].
     cbn [flat_map]. rewrite map_app, IH. f_equal.
-    cbn [map]. rewrite (phi_ok_lit_string phi _ _ x Hok). fix_lits phi Hok. reflexivity.
+    cbn [map]. rewrite (em_phi_lit_string phi _ _ x Hok). fix_lits phi Hok. reflexivity.
   - rewrite Hd by reflexivity. reflexivity.
 Qed.
 
@@ -202,9 +231,9 @@ Lemma em_sep_params_map phi d c (ps : list tparam_ir) :
 Proof.
   intros Hok. induction ps as [|p ps IH]; [reflexivity|].
   destruct ps as [|q ps].
-  - cbn [map sep_by]. rewrite (phi_ok_tpi phi _ _ p Hok). reflexivity.
+  - cbn [map sep_by]. rewrite (em_phi_tpi phi _ _ p Hok). reflexivity.
   - cbn [map sep_by] in IH |- *. rewrite !map_app, IH. cbn [map].
-    rewrite (phi_ok_tpi phi _ _ p Hok). fix_lits phi Hok. reflexivity.
+    rewrite (em_phi_tpi phi _ _ p Hok). fix_lits phi Hok. reflexivity.
 Qed.
 
 Lemma em_phantom_one a :
@@ -217,9 +246,8 @@ Lemma em_phantom_many a b l :
         ["<"; "("] ++ sep_by [","] (map (fun p => [tpi_name p]) (a :: b :: l)) ++ [")"; ">"]).
 Proof. reflexivity. Qed.
 
-Lemma em_abs_path_map (phi : string -> string) l : map phi (abs_path l) = abs_path (map phi l) ->
-  True.
-Proof. intros _. exact I. Qed.
+Lemma em_some_inj {A} (x y : A) : Some x = Some y -> x = y.
+Proof. intros H. congruence. Qed.
 
 Lemma phantom_tokens_map phi d c unused p :
   phi_ok phi d c -> phantom_tokens unused = Some p -> map phi p = p.
@@ -229,10 +257,10 @@ Proof.
                  abs_path ["core"; "marker"; "PhantomData"]).
   { apply (lits_fixed phi _ _ _ Hok). vm_compute. reflexivity. }
   destruct unused as [|a [|b l]]; [discriminate| |].
-  - rewrite em_phantom_one in H. injection H as <-.
+  - rewrite em_phantom_one in H. apply em_some_inj in H. subst p.
     rewrite map_app, Habs. f_equal. cbn [map].
-    rewrite (phi_ok_tpi phi _ _ a Hok). fix_lits phi Hok. reflexivity.
-  - rewrite em_phantom_many in H. injection H as <-.
+    rewrite (em_phi_tpi phi _ _ a Hok). fix_lits phi Hok. reflexivity.
+  - rewrite em_phantom_many in H. apply em_some_inj in H. subst p.
     rewrite !map_app, (em_sep_params_map phi _ _ _ Hok), Habs.
     cbn [map]. fix_lits phi Hok. reflexivity.
 Qed.
@@ -243,4 +271,198 @@ Proof.
   intros Hok. unfold type_params_tokens. destruct ps as [|a l]; [reflexivity|].
   rewrite !map_app, (em_sep_params_map phi _ _ _ Hok).
   cbn [map]. fix_lits phi Hok. reflexivity.
+Qed.
+
+Lemma em_map_id {A} (f : A -> A) l : (forall x, In x l -> f x = x) -> map f l = l.
+Proof.
+  induction l as [|a l IH]; cbn [map]; intros H; [reflexivity|].
+  rewrite (H a) by (left; reflexivity). f_equal. apply IH. intros x Hx. apply H. right. exact Hx.
+Qed.
+
+Lemma em_map_kt_fixed phi (l : list kt) :
+  (forall w, In w (flat_map snd l) -> phi w = w) -> map (map_kt phi) l = l.
+Proof.
+  intros H. apply em_map_id. intros [k t] Hx. unfold map_kt. cbn [fst snd]. f_equal.
+  apply map_phi_fixed. intros w Hw. apply H. apply in_flat_map. exists (k, t). split; [exact Hx|exact Hw].
+Qed.
+
+Lemma map_derives_fixed phi dv :
+  (forall w, In w (derives_inputs dv) -> phi w = w) -> map_derives phi dv = dv.
+Proof.
+  intros H. destruct dv as [ds ats]. unfold map_derives, derives_inputs in *.
+  cbn [d_derives d_attrs] in *.
+  rewrite !em_map_kt_fixed; [reflexivity| |]; intros w Hw; apply H; apply in_or_app; [right|left]; exact Hw.
+Qed.
+
+Lemma em_map_fi_fixed phi f :
+  (forall w, In w (tpath_inputs (fi_path f)) -> phi w = w) -> map_fi phi f = f.
+Proof.
+  intros H. destruct f as [t cp bx]. unfold map_fi. cbn [fi_path fi_compact fi_boxed] in *.
+  rewrite map_tpath_fixed by exact H. reflexivity.
+Qed.
+
+Lemma em_map_ckind_fixed phi k :
+  (forall w, In w (ckind_inputs k) -> phi w = w) -> map_ckind phi k = k.
+Proof.
+  intros H. destruct k as [|fs|fs]; cbn [map_ckind ckind_inputs] in *; [reflexivity| |]; f_equal.
+  - apply em_map_id. intros [n f] Hx. cbn [fst snd].
+    assert (Hin : forall w, In w (n :: tpath_inputs (fi_path f)) -> phi w = w).
+    { intros w Hw. apply H. apply in_flat_map. exists (n, f). split; [exact Hx|exact Hw]. }
+    rewrite (Hin n) by (left; reflexivity).
+    rewrite em_map_fi_fixed; [reflexivity|]. intros w Hw. apply Hin. right. exact Hw.
+  - apply em_map_id. intros f Hx. apply em_map_fi_fixed. intros w Hw. apply H.
+    apply in_flat_map. exists f. split; [exact Hx|exact Hw].
+Qed.
+
+Lemma em_map_ci_fixed phi ci :
+  (forall w, In w (ci_inputs ci) -> phi w = w) -> map_ci phi ci = ci.
+Proof.
+  intros H. destruct ci as [n k docs]. unfold map_ci, ci_inputs in *. cbn [ci_name ci_kind ci_docs] in *.
+  rewrite (H n) by (left; reflexivity).
+  rewrite em_map_ckind_fixed; [reflexivity|]. intros w Hw. apply H. right. exact Hw.
+Qed.
+
+Lemma em_map_kind_fixed phi k :
+  (forall w, In w (kind_inputs k) -> phi w = w) -> map_kind phi k = k.
+Proof.
+  intros H. destruct k as [ci|name docs vs]; cbn [map_kind kind_inputs] in *.
+  - rewrite em_map_ci_fixed by exact H. reflexivity.
+  - rewrite (H name) by (left; reflexivity). f_equal.
+    apply em_map_id. intros [i ci] Hx. cbn [fst snd]. f_equal.
+    apply em_map_ci_fixed. intros w Hw. apply H. right. apply in_flat_map.
+    exists (i, ci). split; [exact Hx|exact Hw].
+Qed.
+
+Lemma map_ir_fixed phi ir :
+  (forall w, In w (ir_inputs ir) -> phi w = w) -> map_ir phi ir = ir.
+Proof.
+  intros H. destruct ir as [ps un dv cd k]. unfold map_ir, ir_inputs in *.
+  cbn [ti_params ti_unused ti_derives ti_codec ti_kind] in *.
+  rewrite map_derives_fixed by (intros w Hw; apply H; apply in_or_app; left; exact Hw).
+  rewrite em_map_kind_fixed by (intros w Hw; apply H; apply in_or_app; right; exact Hw).
+  reflexivity.
+Qed.
+
+Lemma map_items_fixed phi (m : items) :
+  (forall w, In w (items_inputs m) -> phi w = w) -> map_items (map_ir phi) m = m.
+Proof.
+  intros H. unfold map_items. apply em_map_id. intros [p [i ir]] Hx. cbn [fst snd].
+  rewrite map_ir_fixed; [reflexivity|]. intros w Hw. apply H. unfold items_inputs.
+  apply in_flat_map. exists (p, (i, ir)). split; [exact Hx|]. cbn [fst snd].
+  apply in_or_app. right. exact Hw.
+Qed.
+
+(** * 3. The emitter *)
+
+Lemma em_mapM_rmap {A B B'} (f : A -> result B) (g : A -> result B') (k : B -> B') l :
+  (forall x, In x l -> g x = rmap k (f x)) -> mapM g l = rmap (map k) (mapM f l).
+Proof.
+  intros H. rewrite <- (map_id l) at 1. apply em_mapM_map. exact H.
+Qed.
+
+Lemma em_abs_lits phi d c l :
+  phi_ok phi d c -> forallb (em_litb d c) (abs_path l) = true ->
+  map phi (abs_path l) = abs_path l.
+Proof. intros Hok H. apply (em_lits_fixed phi d c _ Hok H). Qed.
+
+Lemma field_tokens_map phi d c s1 s2 f :
+  phi_ok phi d c ->
+  alloc_tokens (s_alloc s2) = map phi (alloc_tokens (s_alloc s1)) ->
+  field_tokens s2 (map_fi phi f) = rmap (map phi) (field_tokens s1 f).
+Proof.
+  intros Hok Ha. unfold field_tokens. cbv zeta. cbn [map_fi fi_path fi_boxed].
+  rewrite Ha, (tp_tokens_map phi d c _ _ Hok).
+  destruct (tp_tokens (alloc_tokens (s_alloc s1)) (fi_path f)) as [t|e|msg]; cbn [rmap bind];
+    try reflexivity.
+  destruct (fi_boxed f); cbn [rmap bind]; [|reflexivity].
+  f_equal. rewrite !map_app.
+  rewrite (em_abs_lits phi d c ["boxed"; "Box"] Hok) by (vm_compute; reflexivity).
+  cbn [map]. fix_lits phi Hok. reflexivity.
+Qed.
+
+Lemma em_compact_attr_of_map_fi phi codec f :
+  compact_attr_of codec (map_fi phi f) = compact_attr_of codec f.
+Proof. reflexivity. Qed.
+
+Lemma em_compact_attr_map phi d codec f :
+  phi_ok phi d codec -> map phi (compact_attr_of codec f) = compact_attr_of codec f.
+Proof.
+  intros Hok. unfold compact_attr_of. destruct (fi_compact f); [|reflexivity].
+  destruct codec; [|reflexivity]. cbn [andb].
+  apply (em_lits_fixed phi d true _ Hok). vm_compute. reflexivity.
+Qed.
+
+Lemma em_codec_skip_map phi d (codec : bool) :
+  phi_ok phi d codec ->
+  map phi (if codec then codec_skip else []) = (if codec then codec_skip else []).
+Proof.
+  intros Hok. destruct codec; [|reflexivity].
+  apply (em_lits_fixed phi d true _ Hok). vm_compute. reflexivity.
+Qed.
+
+Lemma em_codec_index_map phi d (codec : bool) i :
+  phi_ok phi d codec ->
+  map phi (if codec then codec_index i else []) = (if codec then codec_index i else []).
+Proof.
+  intros Hok. destruct codec; [|reflexivity].
+  unfold codec_index. cbn [map]. rewrite (em_phi_num phi _ _ i Hok). fix_lits phi Hok. reflexivity.
+Qed.
+
+Lemma struct_field_tokens_map phi d codec s1 s2 k ph :
+  phi_ok phi d codec ->
+  alloc_tokens (s_alloc s2) = map phi (alloc_tokens (s_alloc s1)) ->
+  (forall p, ph = Some p -> map phi p = p) ->
+  struct_field_tokens s2 (map_ckind phi k) ph codec =
+  rmap (map phi) (struct_field_tokens s1 k ph codec).
+Proof.
+  intros Hok Ha Hph.
+  assert (Hm1 : map phi (match ph with
+                         | Some p => (if codec then codec_skip else []) ++ ["pub"; "__ignore"; ":"] ++ p
+                         | None => []
+                         end) =
+                match ph with
+                | Some p => (if codec then codec_skip else []) ++ ["pub"; "__ignore"; ":"] ++ p
+                | None => []
+                end).
+  { destruct ph as [p|]; [|reflexivity].
+    rewrite !map_app, (Hph p eq_refl), (em_codec_skip_map phi d codec Hok).
+    cbn [map]. fix_lits phi Hok. reflexivity. }
+  assert (Hm2 : map phi (match ph with
+                         | Some p => (if codec then codec_skip else []) ++ ["pub"] ++ p
+                         | None => []
+                         end) =
+                match ph with
+                | Some p => (if codec then codec_skip else []) ++ ["pub"] ++ p
+                | None => []
+                end).
+  { destruct ph as [p|]; [|reflexivity].
+    rewrite !map_app, (Hph p eq_refl), (em_codec_skip_map phi d codec Hok).
+    cbn [map]. fix_lits phi Hok. reflexivity. }
+  destruct k as [|fs|fs]; cbn [map_ckind struct_field_tokens].
+  - destruct ph as [p|]; cbn [rmap bind]; [|reflexivity].
+    f_equal. rewrite !map_app, (Hph p eq_refl). cbn [map]. fix_lits phi Hok. reflexivity.
+  - rewrite (em_mapM_map
+               (fun '(name, f) =>
+                  let* t := field_tokens s1 f in
+                  Ok (compact_attr_of codec f ++ ["pub"; name; ":"] ++ t ++ [","]))
+               _ _ (map phi)).
+    + destruct (mapM _ fs) as [l|e|msg]; cbn [rmap bind]; try reflexivity.
+      f_equal. rewrite !map_app, concat_map, Hm1. cbn [map]. fix_lits phi Hok. reflexivity.
+    + intros [name f] _. cbn [fst snd].
+      rewrite (field_tokens_map phi d codec s1 s2 f Hok Ha).
+      destruct (field_tokens s1 f) as [t|e|msg]; cbn [rmap bind]; try reflexivity.
+      f_equal. rewrite !map_app, em_compact_attr_of_map_fi, (em_compact_attr_map phi d codec f Hok).
+      cbn [map]. fix_lits phi Hok. reflexivity.
+  - rewrite (em_mapM_map
+               (fun f =>
+                  let* t := field_tokens s1 f in
+                  Ok (compact_attr_of codec f ++ ["pub"] ++ t ++ [","]))
+               _ _ (map phi)).
+    + destruct (mapM _ fs) as [l|e|msg]; cbn [rmap bind]; try reflexivity.
+      f_equal. rewrite !map_app, concat_map, Hm2. cbn [map]. fix_lits phi Hok. reflexivity.
+    + intros f _.
+      rewrite (field_tokens_map phi d codec s1 s2 f Hok Ha).
+      destruct (field_tokens s1 f) as [t|e|msg]; cbn [rmap bind]; try reflexivity.
+      f_equal. rewrite !map_app, em_compact_attr_of_map_fi, (em_compact_attr_map phi d codec f Hok).
+      cbn [map]. fix_lits phi Hok. reflexivity.
 Qed.
